@@ -19,6 +19,21 @@ CLAIMED = {
     ),
 }
 
+CLAIMED["C17"] = (
+    "Kernel-checked theorems: each connector end-point setter (all six branches incl. cross-over/flip toggling) sets exactly "
+    "the assigned coordinate, keeps the other end point and keeps extents non-negative; lifted by induction to every "
+    "assignment sequence (refinement to four independent coordinates); _child_extents is the tight bounding box; any "
+    "sequence of additions at any nesting depth that recalculates upward keeps every group = bbox(members) recursively; "
+    "freeform offset/extents are min / max-min over all vertices of all contours and every path point lies in [0,w]x[0,h]; "
+    "round() on rationals is within 1/2.  Tied to the code by exact correspondence on seeded sequences (connector state "
+    "words, all group boxes after every addition of every member kind, freeform box/path) plus the property's statement "
+    "evaluated on the real objects.",
+    "Trusted: which add_* call sites trigger recalculation is observed, not proved (two call sites that did not were found and "
+    "fixed: see known_findings.json); float scaling is exact only for dyadic scales (others compared within 1 EMU).",
+    "Lean 4 proof (case analysis + omega; induction over op lists and nesting paths) + seeded correspondence",
+    "DESIGN.md §5 C17",
+)
+
 NOT_YET = {}
 
 
